@@ -21,11 +21,11 @@ WALL_CAP = {'quick': 150, 'thorough': 1500}
 EVIDENCE = {
     'level': 'exploration',
     'rule': ('one LE link between two bumble devices; per side IO capability (5), Secure Connections, MITM, bonding and two 4-bit '
-             'key-distribution masks drawn independently; pairing started by the central or requested by the peripheral; user answers '
+             'key-distribution masks drawn independently; pairing started by the central, requested by the peripheral, or started by the peripheral itself (SMP initiator = link peripheral); user answers '
              'accept/reject, right/wrong passkey, compare yes/no, confirm yes/no, each with a seeded delay; optionally one SMP PDU '
              '(confirm, random, public key, DHKey check) corrupted in flight; then disconnect, reconnect in the same and in swapped '
              'roles and encrypt(). the scenario "table" walks all 100 cells of 5x5 IO capabilities x {legacy,SC} x {MITM} exhaustively '
-             'in every tier. Non-trivial: a MITM-protected model was selected or a fault/negative answer was in play; distinct = distinct '
+             'in every tier; scenario "two_centrals": one peripheral paired by two centrals in turn (same connection handle), each later answered with its own key. Non-trivial: a MITM-protected model was selected or a fault/negative answer was in play; distinct = distinct '
              '(io pair, sc, mitm, masks class, initiator, answers, fault, outcome).'),
     'real': ['bumble.smp', 'bumble.pairing', 'bumble.device (pair, encrypt, key provider)', 'bumble.keys.MemoryKeyStore', 'bumble.crypto'],
     'stub': ['pairing delegates', 'in-flight SMP corruption on the air channel', 'injected LE Long Term Key Request event'],
